@@ -21,8 +21,9 @@ RULE = ("fake ACN-Data server holding 0-250 documents (unique _id, RFC-1123 stri
         "with >=1 empty page, or a document in a DST-transition hour; distinct = (page plan shape, args, fault, TZ)")
 PROBES = ["empty_page_middle", "empty_page_end", "zero_documents", "three_plus_pages", "dst_transition_doc", "timeseries_doc",
           "by_time_query", "fault:not_json", "fault:error_doc", "fault:connection", "invalid_site", "host_tz_non_utc",
-          "roundtrip_checked", "timeseries_spans_dst"]
-FAULT_DIMENSION = "server-side faults at page k: non-JSON body, error document without _items, transport ConnectionError (client has no retry: must raise, never end silently)"
+          "roundtrip_checked", "timeseries_spans_dst", "concurrent_generators", "interleaved_switches", "underscore_date_field",
+          "new_year_query_bound"]
+FAULT_DIMENSION = "interleaving of up to three generators of one client (seeded scheduler decides who advances); server-side faults at page k: non-JSON body, error document without _items, transport ConnectionError (client has no retry: must raise, never end silently)"
 REAL_VS_STUB = "real: DataClient, acndata.utils (http_date, parse_http_date, parse_dates); stub: requests -> in-process fake server; reference: integer epoch arithmetic + zoneinfo"
 ASSUMPTIONS = ["query values contain no '&' (the client does not URL-encode; out of the property's scope)",
                "naive datetimes are not passed to http_date (their meaning depends on the host zone by definition)"]
@@ -48,6 +49,9 @@ def gen(rs, tier):
              "doneChargingTime": (e + r.randint(0, dur)) if r.random() < 0.7 else None, "kWhDelivered": round(r.uniform(0.1, 60), 3),
              "sessionID": "sess_%d" % i, "spaceID": "CA-%d" % r.randint(300, 330), "timezone": r.choice(ZONES),
              "note": r.choice(["plain text", "Mon, not a date", "", "Tue, 99 Foo 2019 00:00:00 GMT"])}
+        if r.random() < 0.5:      # the API's own bookkeeping dates are RFC-1123 fields too
+            d["_created"] = e + dur + r.randint(0, 86400)
+            d["_updated"] = d["_created"] + r.randint(0, 86400)
         if ts_mode:
             k = r.randint(0, 6)
             step = r.choice([10, 10, 300, 1800, 3600])
@@ -73,6 +77,8 @@ def gen(rs, tier):
         args["timeseries"] = ts_mode and r.random() < 0.7
     elif mode == "by_time":
         lo = base + r.randint(0, 15 * 86400)
+        if r.random() < 0.15:     # bounds around a New Year (local year != UTC year in most zones)
+            lo = r.choice([1514764800, 1546300800, 1577836800, 1609459200]) + r.randint(-14 * 3600, 14 * 3600)
         args["start"] = lo if r.random() < 0.8 else None
         args["end"] = (lo + r.randint(0, 20 * 86400)) if r.random() < 0.8 else None
         args["min_energy"] = r.choice([None, None, 2, 10.5])
@@ -81,14 +87,24 @@ def gen(rs, tier):
     fault = None
     if r.random() < 0.25 and mode != "invalid_site":
         fault = {"at": r.randint(0, max(0, len(pages))), "kind": r.choice(["not_json", "error_doc", "connection"])}
-    return {"seed": rs, "docs": docs, "pages": pages, "mode": mode, "args": args, "fault": fault,
+    extra = []
+    if fault is None and mode != "invalid_site" and r.random() < 0.3:
+        # further generators of the SAME client alive at the same time (other sites), advanced in a seeded interleaving
+        for site in [x for x in ["caltech", "jpl", "office001"] if x != args["site"]][: r.randint(1, 2)]:
+            m = r.randint(0, 12)
+            extra.append({"site": site, "pages": [r.choice([0, 1, 1, 2, 3]) for _ in range(r.randint(0, 5))],
+                          "docs": [{"_id": "%s%03d" % (site[:2], j), "connectionTime": base + r.randint(0, 86400 * 30),
+                                    "disconnectTime": base + 86400 * 31, "doneChargingTime": None, "kWhDelivered": 1.0 + j,
+                                    "sessionID": "x%d" % j, "spaceID": "Q", "timezone": r.choice(ZONES), "note": "n"} for j in range(m)]})
+    return {"seed": rs, "docs": docs, "pages": pages, "mode": mode, "args": args, "fault": fault, "extra_queries": extra,
             "host_tz": r.choice(HOST_TZ), "roundtrip": [(r.choice(DST_EPOCHS + [base]) + r.randint(-7200, 7200), r.choice(ZONES)) for _ in range(3)]}
 
 
 def serialise(d):
     out = dict(d)
-    for k in ("connectionTime", "disconnectTime", "doneChargingTime"):
-        out[k] = rfc1123(d[k]) if d[k] is not None else None
+    for k in ("connectionTime", "disconnectTime", "doneChargingTime", "_created", "_updated"):
+        if k in d:
+            out[k] = rfc1123(d[k]) if d[k] is not None else None
     for k in ("chargingCurrent", "pilotSignal"):
         if k in d:
             out[k] = dict(d[k], timestamps=[rfc1123(x) for x in d[k]["timestamps"]])
@@ -113,9 +129,12 @@ def check(sc):
     raw = {d["_id"]: d for d in sc["docs"]}
     server = FakeServer([serialise(d) for d in sc["docs"]], sc["pages"],
                         faults=({sc["fault"]["at"]: sc["fault"]["kind"]} if sc["fault"] else None))
+    for xq in sc.get("extra_queries", []):
+        server.add_site(xq["site"], [serialise(d) for d in xq["docs"]], xq["pages"])
     orig = dc_mod.requests
     dc_mod.requests = server
     got = []
+    xgot = {xq["site"]: [] for xq in sc.get("extra_queries", [])}
     err = None
     a = sc["args"]
     try:
@@ -129,16 +148,42 @@ def check(sc):
                     e = dt.datetime.fromtimestamp(a["end"], tz=z) if a["end"] is not None else None
                     it = client.get_sessions_by_time(a["site"], s, e, min_energy=a["min_energy"], timeseries=a["timeseries"])
                     out.probe("by_time_query")
+                    for x_ in (s, e):
+                        if x_ is not None and x_.year != x_.astimezone(dt.timezone.utc).year:
+                            out.probe("new_year_query_bound")
                 else:
                     it = client.get_sessions(a["site"], cond=a.get("cond"), project=a.get("project"), sort=a.get("sort"),
                                              timeseries=a.get("timeseries", False))
                 steps = 0
-                for doc in it:
-                    got.append(doc)
-                    steps += 1
-                    if steps > len(sc["docs"]) + 50:
-                        out.add("C20/non_terminating", "generator yielded %d documents for %d on the server" % (steps, len(sc["docs"])))
-                        break
+                if not sc.get("extra_queries"):
+                    for doc in it:
+                        got.append(doc)
+                        steps += 1
+                        if steps > len(sc["docs"]) + 50:
+                            out.add("C20/non_terminating", "generator yielded %d documents for %d on the server" % (steps, len(sc["docs"])))
+                            break
+                else:
+                    # several generators of one client, stepped one item at a time in a seeded interleaving
+                    out.probe("concurrent_generators")
+                    live = [("main", it, got)]
+                    for xq in sc["extra_queries"]:
+                        live.append((xq["site"], client.get_sessions(xq["site"], sort=None), xgot[xq["site"]]))
+                    ri = sub(sc["seed"], "interleave")
+                    lastw = None
+                    cap = len(sc["docs"]) + sum(len(x["docs"]) for x in sc["extra_queries"]) + 60
+                    while live and steps < cap:
+                        w = ri.randrange(len(live))
+                        name, g, sink = live[w]
+                        if lastw is not None and name != lastw:
+                            out.probe("interleaved_switches")
+                        lastw = name
+                        steps += 1
+                        try:
+                            sink.append(next(g))
+                        except StopIteration:
+                            live.pop(w)
+                    if live:
+                        out.add("C20/non_terminating", "interleaved generators still alive after %d steps" % steps)
             except Exception as x:
                 from ..driver import classify_exception
                 if classify_exception(x) == "harness" and not isinstance(x, (server.ConnectionError, InjectedValueError)):
@@ -172,12 +217,21 @@ def check(sc):
                         parts.append("sort=" + a["sort"])
                     parts.append("max_results=%d" % (1 if a.get("timeseries") else 100))
                     exp_url = "sessions/" + a["site"] + ("/ts/" if a.get("timeseries") else "") + "?" + "&".join(parts)
-                if not server.requests or server.requests[0][0] != server.base + exp_url:
-                    out.add("C20/first_request", "sent %r, expected %r" % (server.requests[0][0] if server.requests else None, server.base + exp_url))
-                elif server.requests[0][1] != ("tok3n", ""):
-                    out.add("C20/auth", "auth %r" % (server.requests[0][1],))
+                xs_ = tuple("sessions/%s?" % x["site"] for x in sc.get("extra_queries", []))
+                mine_ = [r for r in server.requests if not any(x in r[0] for x in xs_)]
+                if not mine_ or mine_[0][0] != server.base + exp_url:
+                    out.add("C20/first_request", "sent %r, expected %r" % (mine_[0][0] if mine_ else None, server.base + exp_url))
+                elif any(r[1] != ("tok3n", "") for r in server.requests):
+                    out.add("C20/auth", "auth %r" % ([r[1] for r in server.requests][:3],))
                 order = [d["_id"] for d in (server._selected or [])]
                 ids = [d["_id"] for d in got]
+                for xq in sc.get("extra_queries", []):
+                    st_ = server.extra[xq["site"]]
+                    xo = [d["_id"] for d in (st_["selected"] or [])]
+                    xi = [d["_id"] for d in xgot[xq["site"]]]
+                    if err is None and xi != xo:
+                        out.add("C20/concurrent_yield_sequence", "generator for site %s (alive together with %d others of the same client) "
+                                "yielded %s, its server order is %s" % (xq["site"], len(sc["extra_queries"]), xi[:8], xo[:8]))
                 plan = server._plan or []
                 if server.fired is None:
                     if err is not None:
@@ -185,8 +239,10 @@ def check(sc):
                     elif ids != order:
                         out.add("C20/yield_sequence", "yielded %d docs %s..., server order has %d %s... (pages %s)" % (len(ids), ids[:6], len(order), order[:6], plan))
                     exp_reqs = [server.base + exp_url] + [server.base + "sessions/%s?page=%d&tok=%d" % (a["site"], k + 2, 7919 * (k + 2)) for k in range(len(plan) - 1)]
-                    if not out.viol and [r[0] for r in server.requests] != exp_reqs:
-                        out.add("C20/requests", "requests %s, expected %s" % ([r[0] for r in server.requests][:5], exp_reqs[:5]))
+                    xs_ = tuple("sessions/%s?" % x["site"] for x in sc.get("extra_queries", []))
+                    mine = [r[0] for r in server.requests if not any(x in r[0] for x in xs_)]
+                    if not out.viol and mine != exp_reqs:
+                        out.add("C20/requests", "requests %s, expected %s" % (mine[:5], exp_reqs[:5]))
                 else:
                     out.probe("fault:" + sc["fault"]["kind"])
                     k = server.fired[0]
@@ -207,9 +263,11 @@ def check(sc):
                 for d in got:
                     src = raw[d["_id"]]
                     z = zoneinfo.ZoneInfo(src["timezone"])
-                    for f in ("connectionTime", "disconnectTime", "doneChargingTime"):
-                        if f not in d:
+                    for f in ("connectionTime", "disconnectTime", "doneChargingTime", "_created", "_updated"):
+                        if f not in d or f not in src:
                             continue
+                        if f.startswith("_"):
+                            out.probe("underscore_date_field")
                         v = d[f]
                         if src[f] is None:
                             if v is not None:
